@@ -264,11 +264,21 @@ CLAIMS = {
         "NOT decided: site balance and mass action of every surface species, the diffuse-layer integration and ion excess, the numerical values "
         "reported."),
   note=NOTE_COMMON + "Physical constants (R, F in kJ/V/eq and C/mol, eps0) are recognised by value (2e-4 relative), ln 10 through the member LOG_10. Partial claim labelled `other`."),
+ "C18": dict(
+  technique="table agreement along the sign-constraint chain (input word -> enumerator -> constraint vector -> cl1 bound halves -> cl1 acceptance test -> model-file marks) + shape check of the three bit-mask inclusion predicates of the -minimal search",
+  text=("C18 as a whole depends on the L1 solver's numerical output and is NOT decided. Decided are two clauses that rest on small pieces of code: "
+        "(a) 'mixing fractions are non-negative, dissolve-only phases have non-negative and precipitate-only phases non-positive transfers': one sign "
+        "convention runs from the input word (p.../d... -> PRECIPITATE/DISSOLVE, default EITHER, with signs -/+) through setup_inverse (negative "
+        "constraint value for precipitate columns, positive for dissolve columns and for every initial-solution fraction) into cl1 (negative -> upper "
+        "bound, positive -> lower bound in distinct halves of the bound array; final check rejects x > tol under a negative and x < -tol under a "
+        "positive constraint) and the model-file marks; every link is checked to agree; (b) 'with -minimal no reported model strictly contains "
+        "another': superset_minimal, subset_bad and subset_minimal compute (bits | S[i]) and compare it with the side their names imply. NOT decided: "
+        "mole balance within the uncertainties, min..max ranges, which subsets the search visits (solver outcomes)."),
+  note=NOTE_COMMON + "A partial claim labelled `other`: necessary conditions for two of the five admissibility clauses."),
 }
 
 NOT_APPLICABLE = {
  "C03": "equilibrium end-state (SI = target, phase present/absent, site and mole-fraction sums) is the fixed point of an inequality-constrained Newton iteration; only its numeric outcome can be judged",
- "C18": "admissibility of each reported inverse model depends on the L1 solver's numeric output for each problem",
 }
 PENDING = {}
 
